@@ -105,6 +105,7 @@ def histories_closed() -> bool:
 	del NOTES[:]
 	for name, ops in histories(n, families):
 		cover('history')
+		cover('member')
 		bad = run_history(n, edges, f'{shape}: {name}', ops, tolerate)
 		if bad:
 			NOTES.append(bad)
